@@ -319,6 +319,39 @@ class ExtractHelper(ast.NodeTransformer):
         st.value = ast.Call(func=ast.Name(id=name, ctx=ast.Load()), args=[ast.Name(id=n, ctx=ast.Load()) for n in free], keywords=[])
 
 
+class ExtractMethod(ast.NodeTransformer):
+    """def m(self, a, b=1): BODY   ->   def m(self, a, b=1): return self._m_impl(a, b)   +   def _m_impl(self, a, b): BODY
+    for every undecorated, non-generator method with plain parameters"""
+
+    def visit_ClassDef(self, node):
+        out = []
+        for n in node.body:
+            out.append(n)
+            if not isinstance(n, ast.FunctionDef) or n.decorator_list or n.args.vararg or n.args.kwarg or n.args.kwonlyargs or n.args.posonlyargs:
+                continue
+            if not n.args.args or n.args.args[0].arg != "self" or n.name.startswith("__") and n.name != "__init__":
+                continue
+            if any(isinstance(x, (ast.Yield, ast.YieldFrom, ast.Nonlocal, ast.Global)) for b in n.body for x in ast.walk(b)):
+                continue
+            if any(isinstance(x, ast.Call) and isinstance(x.func, ast.Name) and x.func.id == "super" for b in n.body for x in ast.walk(b)):
+                continue
+            names = [a.arg for a in n.args.args[1:]]
+            impl = "_%s_impl" % n.name.strip("_")
+            body = n.body
+            doc = []
+            if body and isinstance(body[0], ast.Expr) and isinstance(body[0].value, ast.Constant) and isinstance(body[0].value.value, str):
+                doc, body = [body[0]], body[1:]
+            if not body:
+                continue
+            call = ast.Call(func=ast.Attribute(value=ast.Name(id="self", ctx=ast.Load()), attr=impl, ctx=ast.Load()), args=[ast.Name(id=a, ctx=ast.Load()) for a in names], keywords=[])
+            new = ast.FunctionDef(name=impl, args=ast.arguments(posonlyargs=[], args=[ast.arg(arg="self")] + [ast.arg(arg=a) for a in names], kwonlyargs=[], kw_defaults=[], defaults=[]),
+                                  body=body, decorator_list=[], type_params=[])
+            n.body = doc + [ast.Return(value=call)]
+            out.append(new)
+        node.body = out
+        return node
+
+
 class ExplicitDefaults(ast.NodeTransformer):
     """library calls get their documented default keywords spelled out (np.meshgrid(..., indexing="xy"), .groupby(..., sort=True), ...)"""
 
@@ -379,6 +412,8 @@ def transformed(kind, root="/repo/verde", texts=None):
                 tree = UnpackToIndex().visit(tree)
             if k == "hoist":
                 tree = Hoist().visit(tree)
+            if k == "extract-method":
+                tree = ExtractMethod().visit(tree)
             if k == "explicit-defaults":
                 tree = ExplicitDefaults().visit(tree)
             if k == "extract-helper":
